@@ -189,6 +189,25 @@ theorem gain_scales_whole_table {R : Type} [CommRing R] (h s m : R) (coefs : Nat
     show (0 : R) = m * 0
     ring
 
+/-- **Continuity of the interpolated table across phases.**  The kernels of `poly-fir.h` evaluate `f0 + x·(b + x·(c + x·d))` with
+    `x ∈ [0, 1)` the fraction of a phase.  At `x = 1` that polynomial is `f0 + b + c + d`, and for every order 1, 2, 3 the loop's
+    coefficients make it exactly `f1`, the `f0` of the next prototype position: between two neighbouring phases the interpolated
+    coefficient moves from one table value to the next with no jump, whatever `.5` and `1/6.` are (any commutative ring). -/
+theorem interp_reaches_next_value {R : Type} [CommRing R] (h s fm1 f0 f1 f2 : R) (ord : Nat) (h1 : 1 ≤ ord) (h3 : ord ≤ 3) :
+    let e := comp (ringOps R h s) ord fm1 f0 f1 f2
+    e.f0 + e.b + e.c + e.d = f1 := by
+  rcases (by omega : ord = 1 ∨ ord = 2 ∨ ord = 3) with rfl | rfl | rfl <;> simp only [comp, ringOps] <;> ring
+
+/-- … and at `x = 0` it is the table value itself, for every order -/
+theorem interp_starts_at_value {R : Type} [CommRing R] (h s fm1 f0 f1 f2 : R) (ord : Nat) :
+    (comp (ringOps R h s) ord fm1 f0 f1 f2).f0 = f0 := by
+  unfold comp; split <;> rfl
+
+/-- the SIMD-less interpolated kernels of `poly-fir.h` index the table as `coefs[(ORDER+1)*(N*phase+j) + (ORDER-ci)]`: the same cell
+    as the macro `coef` that `prepare_poly_fir_coefs` stores through -/
+theorem kernel_index_form (ord N phase ci j : Nat) : (ord + 1) * (N * phase + j) + (ord - ci) = coefIdx ord N phase ci j := by
+  unfold coefIdx; ring
+
 /-- C07: every index `STORE` writes lies inside the `length` items `prepare_poly_fir_coefs` allocates -/
 theorem table_writes_in_bounds (p : Par α) (i j ci : Nat) (hi : i < p.nc) (hj : j < p.P) (hci : ci ≤ p.ord) :
     p.idx j ci (p.len - 1 - i) < p.length := by
